@@ -92,3 +92,44 @@ package validators
 //@   requires v != nil && v.totalStake != nil
 //@   ensures copy: result != nil && fresh(result) && result.val == v.totalStake.val
 //@   modifies nothing
+
+//@ # ---------------------------------------------------------------- membership in the validator set (C17)
+//@ # a key is a validator iff some member of the current list has it - also when that member is marked to be dropped
+//@ # (DeleteCandidate relies on this to never remove a current validator)
+//@ func (*Validators).IsValidator
+//@   serves C17
+//@   requires v != nil
+//@   requires wf: forall i int :: 0 <= i && i < len(v.list) ==> v.list[i] != nil
+//@   ensures member: result <==> exists i int :: 0 <= i && i < len(v.list) && v.list[i].PubKey == pubkey
+//@   modifies nothing
+//@   loop 0 invariant idx: -1 <= rangeindex && (rangeindex < len(v.list) || (rangeindex == -1 && len(v.list) == 0))
+//@   loop 0 invariant none: forall i int :: 0 <= i && i <= rangeindex ==> v.list[i].PubKey != pubkey
+
+//@ # C17/C18: the new validator list mirrors the chosen candidates (key, total stake, consensus address); a validator that
+//@ # stays in the set keeps its accrued reward and its absence window, a newcomer starts with zero reward and an empty
+//@ # window; validators that are no longer chosen are recorded as removed
+//@ ghost anyV() int
+//@ func (*Validators).SetNewValidators
+//@   serves C17 C18 C19
+//@   skolem anyV
+//@   let i = anyV()
+//@   let o = old(v.list)
+//@   requires v != nil && allocated(v.list) && allocated(candidates)
+//@   requires wfold: forall j int :: 0 <= j && j < len(v.list) ==> v.list[j] != nil && allocated(v.list[j]) && v.list[j].accumReward != nil && allocated(v.list[j].accumReward) && allocated(v.list[j].AbsentTimes)
+//@   requires wfnew: forall k int :: 0 <= k && k < len(candidates) ==> candidates[k] != nil && allocated(candidates[k]) && candidates[k].tmAddress != nil && candidates[k].totalBipStake != nil && allocated(candidates[k].totalBipStake)
+//@   requires uniqueold: forall j1 int, j2 int :: 0 <= j1 && j1 < j2 && j2 < len(v.list) ==> v.list[j1].tmAddress != v.list[j2].tmAddress
+//@   ensures size: len(v.list) == len(candidates)
+//@   ensures mirrors: 0 <= i && i < len(candidates) ==> v.list[i] != nil && v.list[i].PubKey == candidates[i].PubKey && v.list[i].tmAddress == deref(candidates[i].tmAddress) && v.list[i].totalStake != nil && v.list[i].totalStake.val == candidates[i].totalBipStake.val && !v.list[i].toDrop
+//@   ensures [C17,C18,C19] carried: 0 <= i && i < len(candidates) ==> forall j int :: 0 <= j && j < len(o) && old(o[j].tmAddress) == deref(candidates[i].tmAddress) ==> v.list[i].accumReward == old(o[j].accumReward) && v.list[i].AbsentTimes == old(o[j].AbsentTimes)
+//@   ensures [C17,C19] newcomer: 0 <= i && i < len(candidates) && (forall j int :: 0 <= j && j < len(o) ==> old(o[j].tmAddress) != deref(candidates[i].tmAddress)) ==> v.list[i].accumReward != nil && v.list[i].accumReward.val == 0 && v.list[i].AbsentTimes != nil && forall b int :: !bit(v.list[i].AbsentTimes, b)
+//@   modifies v.list, v.removed
+//@   local newVals []*Validator
+//@   loop 0 invariant idx0: -1 <= rangeindex && (rangeindex < len(o) || (rangeindex == -1 && len(o) == 0))
+//@   loop 1 invariant idx1: -1 <= rangeindex && (rangeindex < len(candidates) || (rangeindex == -1 && len(candidates) == 0)) && len(newVals) == rangeindex + 1 && v.list == o
+//@   loop 1 invariant done: 0 <= i && i <= rangeindex ==> newVals[i] != nil && fresh(newVals[i]) && newVals[i].PubKey == candidates[i].PubKey && newVals[i].tmAddress == deref(candidates[i].tmAddress) && newVals[i].totalStake != nil && newVals[i].totalStake.val == candidates[i].totalBipStake.val && !newVals[i].toDrop
+//@   loop 1 invariant donecarried: 0 <= i && i <= rangeindex ==> forall j int :: 0 <= j && j < len(o) && old(o[j].tmAddress) == deref(candidates[i].tmAddress) ==> newVals[i].accumReward == old(o[j].accumReward) && newVals[i].AbsentTimes == old(o[j].AbsentTimes)
+//@   loop 1 invariant donenew: 0 <= i && i <= rangeindex && (forall j int :: 0 <= j && j < len(o) ==> old(o[j].tmAddress) != deref(candidates[i].tmAddress)) ==> newVals[i].accumReward != nil && newVals[i].accumReward.val == 0 && newVals[i].AbsentTimes != nil && forall b int :: !bit(newVals[i].AbsentTimes, b)
+//@   loop 1 invariant oldkept: forall j int :: 0 <= j && j < len(o) ==> o[j].tmAddress == old(o[j].tmAddress) && o[j].accumReward == old(o[j].accumReward) && o[j].AbsentTimes == old(o[j].AbsentTimes)
+//@   loop 2 invariant idx2: -1 <= rangeindex && (rangeindex < len(o) || (rangeindex == -1 && len(o) == 0))
+//@   loop 2 invariant match: forall j int :: 0 <= j && j <= rangeindex && old(o[j].tmAddress) == deref(candidate.tmAddress) ==> accumReward == old(o[j].accumReward) && absentTimes == old(o[j].AbsentTimes)
+//@   loop 2 invariant nomatch: (forall j int :: 0 <= j && j <= rangeindex ==> old(o[j].tmAddress) != deref(candidate.tmAddress)) ==> accumReward != nil && fresh(accumReward) && accumReward.val == 0 && absentTimes != nil && fresh(absentTimes) && forall b int :: !bit(absentTimes, b)
